@@ -149,6 +149,22 @@ class C13(C01):
                 else:
                     h["alive"] = False
             rnd += 1
+        # directed: append rounds that SHRINK the tail by 1..23 bytes (nothing added, comment replaced by a shorter one; also
+        # with one tiny entry added): the new end record must still be the last thing in the file
+        base30 = genzip.build([Entry(b"a", b"x"), Entry(b"b", b"yy", method=8)], comment=b"c" * 30)[0]
+        base30z = genzip.build([Entry(b"a", b"x")], comment=b"c" * 30, force_z64=True)[0]
+        dprogs = []
+        for bname, bdata in (("shrink30", base30), ("shrink30-z64", base30z)):
+            for k in (1, 2, 5, 10, 21, 22, 23, 30):
+                dprogs.append((bname, dict(ops=[("comment", b"c" * (30 - k)), ("finish",)], base=bdata)))
+            dprogs.append((bname, dict(ops=[("finish",)], base=bdata)))
+        dl, do = wprog.with_tables(exe, [p_ for _, p_ in dprogs])
+        dnews = [wprog.final_bytes(o_)[1] or b"" for o_ in do]
+        dold = rawlist(exe, [p_["base"] for _, p_ in dprogs])
+        dnew = rawlist(exe, dnews)
+        for (bname, p_), l_, d_, or_, nr_ in zip(dprogs, dl, dnews, dold, dnew):
+            cases.append((l_, dict(base=bname, round=0, ops=p_["ops"], old=or_, new=nr_, strict=False, nold=len(p_["base"]),
+                                   span=span_problem(p_["base"], d_, or_), impl_only=False)))
         # bases beyond 4 GiB (sparse foreign archives, ZIP64 blocks in every allowed layout): one append round, old entries
         # must be listed exactly as before (shared with C08)
         from props.c08 import C08, G
